@@ -150,7 +150,13 @@ def run(ctx):
                 "solve; all non-trivial")
     ctx.trusted += ["spsolve; the logarithmic profile and its (dr/r_i)^2/6 closeness to the discrete profile are validated numerically, not proved",
                     "long-time convergence of the transient is validated on 8 large steps, not proved (non-expansiveness is proved)"]
+    from harness import translators as _tr
+    ctx.trusted += ["translator harness/translators/thermalstencil.py (Python ast -> Gallina; numpy slicing / edge padding / C-order flattening and "
+                    "scipy.sparse.diags / coo_matrix placement read as index shifts)"]
+    _tr.import_all()
+    ctx.gen("ThermalStencil", _tr.REGISTRY["ThermalStencil"])
     ctx.prove("C13")
+    ctx.prove("C02_stencil")
     ctx.prove("C13_log")
     if ctx.tier == "thorough":
         ctx.coqchk("C13")
